@@ -1,4 +1,4 @@
 ---- MODULE MC_scope ----
 EXTENDS MachineRun
-Progs == ScopeParams
+Progs == ScopeParams(0)
 ====
